@@ -215,6 +215,26 @@ theorem hs_agree (ak : Bytes → Bytes) (d : Dialer) (u : Upgrader) (key : Bytes
               some (.accept (d.enableCompression && u.enableCompression) sub)) :=
   handshake_agree ak d u key reqHdr hkey horigin huser
 
+open Oryx.Model.WsHs in
+/-- **`parseURL` on every well-formed ws-URI** (RFC 6455 section 3: `ws:` / `wss:`, `//`, host[:port], a path that is
+empty or starts with `/`, optionally `?` and a query) gives back exactly its parts; an absent path becomes `/`. -/
+theorem hs_ws_uri (secure : Bool) (host path query : Bytes) (hasQuery : Bool)
+    (hh : host.contains 47 = false ∧ host.contains 63 = false ∧ host.contains 64 = false)
+    (hp : path = [] ∨ ∃ t, path = 47 :: t) (hpq : path.contains 63 = false) (hq : hasQuery = false → query = []) :
+    parseURL (renderURI secure host path query hasQuery) =
+      some { scheme := if secure then ascii "wss" else ascii "ws", host := host,
+             path := if path.isEmpty then [47] else path, rawQuery := query } :=
+  parseURL_renderURI secure host path query hasQuery hh hp hpq hq
+
+open Oryx.Model.WsHs in
+/-- The address `Dial` connects to: the URI's own port when it has one, otherwise 80 (`ws`) / 443 (`wss`). -/
+theorem hs_dial_address (u : WsURL) :
+    (lastIndex 58 u.host ≤ lastIndex 93 u.host →
+      (hostPortNoPort u).1 = u.host ++ (if u.scheme == ascii "wss" || u.scheme == ascii "https" then ascii ":443" else ascii ":80")
+      ∧ (hostPortNoPort u).2 = u.host) ∧
+    (lastIndex 58 u.host > lastIndex 93 u.host → (hostPortNoPort u).1 = u.host) :=
+  ⟨hostPort_default u, hostPort_explicit u⟩
+
 /-- The accept key as RFC 6455 section 4.2.2 defines it (Spec.Sha1: SHA-1 from FIPS 180-4 and base64 from RFC 4648,
 written from the standards) on the example of RFC 6455 section 1.3. The driver compares `computeAcceptKey` with this
 specification on every key it uses. -/
@@ -242,6 +262,10 @@ example :
 example : ∀ p ∈ [(ascii "Origin", [ascii "http://example.com"])],
     canon p.1 ∉ requestNames ∧ ((([ascii "chat"] : List Bytes).isEmpty = false) → canon p.1 ≠ ascii "Sec-Websocket-Protocol") := by
   decide +kernel
+/-- ws URIs: an IPv6 literal without a port gets `:80`, `?` in the query stays, user information is refused -/
+example : (parseURL (ascii "ws://[::1]/p?a?b")).map (fun u => (requestURI u, hostPortNoPort u)) =
+    some (ascii "/p?a?b", (ascii "[::1]:80", ascii "[::1]")) := by decide +kernel
+example : parseURL (ascii "ws://user:pw@example.com/") = none := by decide +kernel
 /-- a well-formed token list: `keep-alive , Upgrade` contains `upgrade` -/
 example : tlcvOne (renderElems [⟨[], ascii "keep-alive", [32]⟩, ⟨[32], ascii "Upgrade", []⟩]) (ascii "upgrade") = true := by
   decide +kernel
